@@ -44,7 +44,7 @@ def cases(tier, seed):
         progs = list(base) + [('T', b) for b in base] + [('I', ('leaf', n, 0)) for n in CLOSED_INV[fam]]
         comp = [e for e in c01.gen_programs(fam, 'quick', seed) if not _has_lazy(fam, e)]
         rnd.shuffle(comp)
-        progs += (c01.gen_programs(fam, 'thorough', seed)[:4000] if tier == 'thorough' else comp[:30])
+        progs += ([e for e in c01.gen_programs(fam, 'thorough', seed) if not _has_lazy(fam, e)][:4000] if tier == 'thorough' else comp[:30])
         out += [(fam, e) for e in progs]
     return out
 
